@@ -316,6 +316,9 @@ func (d *diff) Diff(ctx context.Context, dl Remote) (newIds, changedIds, removed
 			err = errMismatched
 			return
 		}
+		if err = checkElementsReturned(dctx.toSend, dctx.otherRes); err != nil {
+			return
+		}
 		for i, r := range dctx.toSend {
 			d.compareResults(dctx, r, dctx.myRes[i], dctx.otherRes[i])
 		}
@@ -348,6 +351,9 @@ func (d *diff) CompareDiff(ctx context.Context, dl Remote) (newIds, ourChangedId
 			err = errMismatched
 			return
 		}
+		if err = checkElementsReturned(dctx.toSend, dctx.otherRes); err != nil {
+			return
+		}
 		for i, r := range dctx.toSend {
 			d.compareResults(dctx, r, dctx.myRes[i], dctx.otherRes[i])
 		}
@@ -355,6 +361,18 @@ func (d *diff) CompareDiff(ctx context.Context, dl Remote) (newIds, ourChangedId
 		dctx.prepare = dctx.prepare[:0]
 	}
 	return dctx.newIds, dctx.changedIds, dctx.theirChangedIds, dctx.removedIds, nil
+}
+
+// checkElementsReturned refuses the answer of a remote that was asked for the elements of a range and
+// did not return them (a count that differs from the elements sent): compareResults would ask for the
+// same range again and again, so the exchange would never end.
+func checkElementsReturned(ranges []Range, results []RangeResult) error {
+	for i, r := range ranges {
+		if r.Elements && len(results[i].Elements) != results[i].Count {
+			return errMismatched
+		}
+	}
+	return nil
 }
 
 func (d *diff) compareResults(dctx *diffCtx, r Range, myRes, otherRes RangeResult) {
